@@ -1,16 +1,17 @@
 #!/bin/bash
-# usage: tools/run_mutant.sh <seeded-id> <check-id>...   (applies the seeded patch to /repo, runs the quick checks, reverts)
+# usage: tools/run_mutant.sh <seeded-id> <check-id>...
+# Runs quick checks against a scratch copy of /repo's HEAD with the seeded patch applied (VERIF_REPO),
+# so /repo itself is never touched. Use tools/run_mutant_inplace.sh for the apply/undo procedure on /repo.
 ID=$1; shift
 P=/verif/seeded/$ID/patch.diff
 [ -f "$P" ] || { echo "no $P"; exit 2; }
-cd /repo || exit 2
-[ -z "$(git status --porcelain)" ] || { echo "/repo not clean"; git status --short | head; exit 2; }
-git apply "$P" || { echo "$ID: patch does not apply"; exit 2; }
-revert() { git -C /repo checkout -q -- . ; git -C /repo clean -fdq; }
-trap revert EXIT
+R=/tmp/mutrepo/$ID; rm -rf "$R"; mkdir -p "$R"
+git -C /repo archive HEAD | tar -x -C "$R" || exit 2
+(cd "$R" && git init -q . && git apply "$P") || { echo "$ID: patch does not apply"; rm -rf "$R"; exit 2; }
+trap 'rm -rf "$R"' EXIT
 for C in "$@"; do
-  out=$(cd /verif && VERIF_OUT_DIR=/tmp/mutconf/out ./check "$C" ${TIER:-quick} 2>&1); rc=$?
-  echo "MUTANT $ID check $C rc=$rc $(echo "$out" | grep -c '^VIOLATION') violation line(s)"
-  echo "$out" | grep -A2 '^VIOLATION' | head -${SHOW:-6}
+  out=$(cd /verif && VERIF_REPO=$R VERIF_OUT_DIR=/tmp/mutconf/out/$ID ./check "$C" ${TIER:-quick} 2>&1); rc=$?
+  echo "MUTANT $ID check $C rc=$rc violation_lines=$(echo "$out" | grep -c '^VIOLATION')"
+  echo "$out" | grep -A2 '^VIOLATION' | grep -v '^--' | head -${SHOW:-6}
   echo "$out" | grep 'HARNESS-ERROR' | head -3
 done
